@@ -48,6 +48,9 @@ def hpChacha (sel : Quic.Session.SuiteSel) : Bool := sel.alg == .chachaPoly
 
 def labelCETS : List Nat := ascii "CLIENT_EARLY_TRAFFIC_SECRET"
 
+/-- RFC 8446 B.4: the cipher suites of TLS 1.3 (QUIC v1 runs TLS 1.3: RFC 9001 §4.2), as `ServerHello.cipher_suite` bytes -/
+def tls13Codes : List Bytes := [[0x13, 0x01], [0x13, 0x02], [0x13, 0x03], [0x13, 0x04], [0x13, 0x05]]
+
 /-- the four TLS 1.3 suites QUIC v1 uses: the denotation of their IANA names is RFC 9001's table -/
 theorem quicSuite_table :
     ∀ cs ∈ [0x1301, 0x1302, 0x1303, 0x1304], (quicSuite cs).isSome = true ∧
